@@ -109,7 +109,8 @@ func IdentShape(r *engine.RNG, kind string) *engine.Shape {
 	return sh
 }
 
-var optKeys = []string{"a", "b", "caps", "host", "port", "i", "s", "v", "netId", "router.version", "key", "x", "introducer0", "mtu", ""}
+var optKeys = []string{"a", "b", "caps", "host", "port", "i", "s", "v", "netId", "router.version", "key", "x", "introducer0", "mtu", "",
+	"A", "Z", "aa", "a.b", "a=b", "k;", "\u00e9", "\u00e9a", "host ", "Host", strings.Repeat("q", 255)}
 var optVals = []string{"", "1", "f", "XfR", "127.0.0.1", "::1", "12345", "0.9.67", "2", strings.Repeat("k", 44), strings.Repeat("v", 200), "=;", "a=b;"}
 
 // Options draws 0..max unique-key pairs (sometimes unsorted, sometimes with
